@@ -7,6 +7,7 @@ extra_check(): direct comparison of the implementation's outputs between routes,
   (4) const-evaluated vs run-time results (harness op const.pairs)."""
 import importlib, os, random
 from .common import Case
+from . import c15r
 
 OWNERS = ['c02', 'c03', 'c04', 'c05', 'c06', 'c07', 'c08', 'c09', 'c10', 'c13', 'c14', 'c16', 'c17', 'c20']
 COQCHK = False
@@ -74,7 +75,9 @@ def _all_cases(tier, rng):
     return cs
 
 def gen(tier, rng):
-    return list(_all_cases(tier, rng))
+    cases = list(_all_cases(tier, rng))
+    cases += c15r.gen(tier, rng)      # the glue routes (harness/src/ops/c15r.rs, coq/Model/Glue.v)
+    return cases
 
 def extra_check(ctx):
     cases, impl = ctx.cases, ctx.impl_rel
